@@ -304,7 +304,12 @@ impl HScenario {
             Ok(r) => r.err(),
             Err(p) => {
                 let loc = last_panic_location();
-                Some(Viol::new("harness", format!("unguarded panic at {}: {}", loc, panic_message(&p))))
+                if crate::framework::is_harness_location(&loc) {
+                    Some(Viol::new("harness", format!("unguarded panic at {}: {}", loc, panic_message(&p))))
+                } else {
+                    // a panic raised by crate code on an operation that must not panic
+                    Some(Viol::new("Histogram:panic", format!("histogram code panicked at {}: {}", loc, panic_message(&p))))
+                }
             }
         }
     }
@@ -329,6 +334,7 @@ impl HScenario {
             hs.push(h);
         }
         let k = hs.len();
+        let mut node_ctor: Vec<usize> = tr.nodes.clone();
         let cap: u128 = 1 << 62;
         for (oi, op) in tr.ops.iter().enumerate() {
             st.sim_events += 1;
@@ -505,6 +511,7 @@ impl HScenario {
                     }
                     hs[*dst] = hs[*src].boxed_clone();
                     ms[*dst] = ms[*src].clone();
+                    node_ctor[*dst] = node_ctor[*src];
                 }
                 HOp::Migrate { node, times } => {
                     if *node >= k {
@@ -602,13 +609,25 @@ impl HScenario {
                     }
                     st.bump("probe.identity_probe");
                     st.oracle_evals += 1;
-                    // "fresh" = a histogram over the same edges with zero counts
-                    let mut fresh = hs[*node].boxed_clone();
-                    fresh.reset();
+                    // "fresh" = a newly constructed histogram over the same edges
+                    let mut fresh = match build(len, &tr.ctors[node_ctor[*node]]) {
+                        Ok(h) => h,
+                        Err(_) => continue,
+                    };
+                    if !fresh.ranges().iter().zip(ms[*node].edges.iter()).all(|(a, b)| a == b) {
+                        continue;
+                    }
+                    let _ = &mut fresh;
                     let fresh_dbg = fresh.debug();
                     let before = hs[*node].boxed_clone();
                     let mut a = hs[*node].boxed_clone();
-                    a.merge_from(fresh.as_ref());
+                    let r = catch_unwind(AssertUnwindSafe(|| a.merge_from(fresh.as_ref())));
+                    if let Err(p) = r {
+                        return Err(Viol::new(
+                            "Histogram:merge_panics_same_edges",
+                            format!("op {}: merging a freshly constructed empty histogram over the same edges {:?} panicked: {}", oi, ms[*node].edges, panic_message(&p)),
+                        ));
+                    }
                     if a.bins() != before.bins() || a.debug() != before.debug() {
                         return Err(Viol::new(
                             "Histogram:empty_right_identity",
@@ -619,7 +638,13 @@ impl HScenario {
                         return Err(Viol::new("Histogram:argument_modified", format!("op {}: merge modified its (empty) argument", oi)));
                     }
                     let mut f2 = fresh.boxed_clone();
-                    f2.merge_from(before.as_ref());
+                    let r = catch_unwind(AssertUnwindSafe(|| f2.merge_from(before.as_ref())));
+                    if let Err(p) = r {
+                        return Err(Viol::new(
+                            "Histogram:merge_panics_same_edges",
+                            format!("op {}: merging into a freshly constructed empty histogram over the same edges panicked: {}", oi, panic_message(&p)),
+                        ));
+                    }
                     if f2.bins() != before.bins() || f2.debug() != before.debug() {
                         return Err(Viol::new(
                             "Histogram:empty_left_identity",
